@@ -151,6 +151,7 @@ def run_cfg(ctx, p, cfg):
         else:
             r.fail("post-branch-shape", fn=a, detail="post-processing branch does not have one flush and one process call")
 
+    rolling.rule_lock_span(ctx, p, cfg, "Z12")   # the size the policy is shown is the size after this very write: write, flush, the read of the size and the policy run under one lock
     rolling.rule_branch_order(ctx, p, cfg, "Z5")
     if "compound_policy" in p.meta.get("features", []):
         rolling.rule_policy_order(ctx, p, cfg, "Z6")   # exceeding the limit always leads to the rotation
